@@ -64,13 +64,11 @@ theorem encoded_pointer_missing_base (m : Mode) (e : Endian) (enc : Nat) (p : Pe
   pep_missing_base m e enc p r hv ho hal h1 h8 hb
 
 /-- **Encode then decode is the identity** for every valid format × application × indirect
-combination and every base set — *partial*: all value formats except `sleb128`
-(`encodeOperand` gives no encoder for it; a signed-LEB128 round-trip theorem is missing in C09's
-lemma library; sleb128 pointers are covered by `encoded_pointer_decode` and the differential run).
-Full statement: the same with `encodeOperand` total on format 0x09.
-The operand `x` is any 64-bit pattern that fits the format; the decoded pointer is
+combination — all nine value formats, `sleb128` included (through C09's `signed_roundtrip`) — and
+every base set. The operand `x` is any 64-bit pattern that fits the format (`encodeOperand`: the
+signed formats hold the two's-complement reading of the pattern); the decoded pointer is
 `base + x` modulo the address size and exactly the operand's bytes are consumed. -/
-theorem encoded_pointer_roundtrip_partial (m : Mode) (e : Endian) (enc : Nat) (p : PeParams)
+theorem encoded_pointer_roundtrip (m : Mode) (e : Endian) (enc : Nat) (p : PeParams)
     (off x b : Nat) (bytes rest : Bytes)
     (hv : isValidEncoding enc = true) (ho : enc ≠ 0xff) (hal : peApplication enc ≠ 0x50)
     (h1 : 1 ≤ p.asz) (h8 : p.asz ≤ 8)
@@ -127,9 +125,8 @@ theorem hdr_lookup_total (m : Mode) (e : Endian) (h : Hdr) (bases : Bases) (a : 
 /-- **`.eh_frame_hdr` round trip.** `encodeHdr` (Spec/Frame.lean: version 1, the three encoding
 bytes, `eh_frame_ptr`, `fde_count`, the rows) parses to exactly the header it encodes: the
 `eh_frame_ptr` pointer (any valid encoding, base present), the count, the table encoding and the
-table bytes at their offset. (*Partial* like `encoded_pointer_roundtrip_partial`: operand formats
-other than sleb128.) -/
-theorem hdr_roundtrip_partial (m : Mode) (e : Endian) (bases : Bases) (asz : Nat) (h : AHdr)
+table bytes at their offset — for every operand format, sleb128 included. -/
+theorem hdr_roundtrip (m : Mode) (e : Endian) (bases : Bases) (asz : Nat) (h : AHdr)
     (hw : h.WF e bases asz) :
     parseHdr m e bases asz (encodeHdr e asz h) = .ok (h.expect e bases asz) :=
   parseHdr_encoded m e bases asz h hw
@@ -219,17 +216,13 @@ empty augmentation or `z` followed by any sequence of `L`, `P`, `R`, `S` with th
 bytes in `.debug_frame` version 4, trailing augmentation padding, any instruction bytes — and
 FDEs (CIE pointer relative in `.eh_frame`, absolute in `.debug_frame`; address fields in the CIE's
 `R` encoding or as plain addresses; augmentation data with the LSDA pointer in the `L` encoding),
-optionally followed by a zero-length terminator. For every such list that satisfies the layout
-side conditions `EntriesWF` the iterator yields exactly `expectEntries`: each CIE with all its
-fields, each FDE with its offset, length, format and the CIE offset its pointer designates — and
-then ends with `Ok(None)`.
-
-*Partial*: the Spec encoder covers `data_alignment_factor` only in one-byte SLEB128
-(`-64 ≤ daf < 64`) and pointer operands in every format but sleb128 (no signed-LEB128
-round-trip theorem is available); the 64-bit zero terminator and `.debug_frame` zero-length words
-*between* entries are not part of the encoder (they are exercised by the differential run).
-Full statement: the same with those restrictions lifted. -/
-theorem entries_roundtrip_partial (c : Cfg) (bases : Bases) (es : List AEntry) (term : Bool)
+zero length fields of either format between the entries (`.debug_frame` only, where the reader
+skips them), optionally followed by a zero length field of either format (the `.eh_frame`
+terminator). For every such list that satisfies the layout side conditions `EntriesWF` the
+iterator yields exactly `expectEntries`: each CIE with all its fields (every data alignment
+factor in `i64`, every pointer format incl. sleb128), each FDE with its offset, length, format and
+the CIE offset its pointer designates — and then ends with `Ok(None)`. -/
+theorem entries_roundtrip (c : Cfg) (bases : Bases) (es : List AEntry) (term : Option Format)
     (hwf : EntriesWF c bases 0 es) :
     entriesOf c bases (encodeFrameSection c.eh c.e es term) = (expectEntries c bases 0 es, .ok ()) := by
   unfold entriesOf encodeFrameSection
@@ -244,7 +237,8 @@ section (at its layout offset `totalSize es1`) parses — through `cie_from_offs
 pointer resolves to — to `fd.expect`: that very CIE record, the initial location and range decoded
 in the CIE's `R` encoding against the given bases (pc-relative to the field's own offset), the
 LSDA pointer (function-relative to the initial location), and the instruction bytes. -/
-theorem fde_bound_roundtrip_partial (c : Cfg) (bases : Bases) (es1 es2 : List AEntry) (ci : ACie) (term : Bool)
+theorem fde_bound_roundtrip (c : Cfg) (bases : Bases) (es1 es2 : List AEntry) (ci : ACie)
+    (term : Option Format)
     (fd : AFde) (off : Nat)
     (hwf : EntriesWF c bases 0 (es1 ++ .cie ci :: es2))
     (hfd : fd.WF c bases (ci.expect c bases (totalSize c.eh c.e es1)) off) :
@@ -408,7 +402,7 @@ def exFde : AFde :=
 
 
 
-def exSecEh : Bytes := encodeFrameSection true .little [.cie exCie, .fde (exCie.expect exCfgEh exBases 0) exFde] true
+def exSecEh : Bytes := encodeFrameSection true .little [.cie exCie, .fde (exCie.expect exCfgEh exBases 0) exFde] (some .dwarf32)
 
 example : exSecEh.length = 55 ∧ (entriesOf exCfgEh exBases exSecEh).1.length = 2 ∧
     (entriesOf exCfgEh exBases exSecEh).2 = .ok () ∧
@@ -419,7 +413,7 @@ example : exSecEh.length = 55 ∧ (entriesOf exCfgEh exBases exSecEh).1.length =
         f.cie.aug.map (fun a => a.personality.map (fun p => p.2.pointer))))) = .ok [(some 0x1038, some (some 0x2113))] := by
   decide +kernel
 
-/-- the side conditions of `entries_roundtrip_partial` / `fde_bound_roundtrip_partial` hold for it -/
+/-- the side conditions of `entries_roundtrip` / `fde_bound_roundtrip` hold for it -/
 example : EntriesWF exCfgEh exBases 0 [.cie exCie, .fde (exCie.expect exCfgEh exBases 0) exFde] := by
   refine ⟨⟨by decide, by decide, by decide, by decide, by decide, by decide, ?_, by decide +kernel, by decide +kernel⟩,
     (by show idSize exCfgEh.eh exCie.format + (ACie.fields exCfgEh.eh exCfgEh.e exCie).length < 0xffff_fff0; decide +kernel),
@@ -443,7 +437,7 @@ def ixCfg : Cfg := { eh := true, e := .little, asz := 8, m := .debug }
 def ixF0 : AFde := { format := .dwarf32, initOp := 0x1000, range := 0x20, lsdaOp := 0, augPad := [], instr := [0] }
 def ixF1 : AFde := { format := .dwarf32, initOp := 0x1040, range := 0x10, lsdaOp := 0, augPad := [], instr := [] }
 def ixC : Cie := ixCie.expect ixCfg {} 0
-def ixSec : Bytes := encodeFrameSection true .little [.cie ixCie, .fde ixC ixF1, .fde ixC ixF0] true
+def ixSec : Bytes := encodeFrameSection true .little [.cie ixCie, .fde ixC ixF1, .fde ixC ixF0] (some .dwarf32)
 
 /-- eh_frame at 0x2000; table rows sorted by initial location: (0x1000 -> FDE at 40), (0x1040 -> FDE at 16) -/
 def ixHdrBytes : Bytes := [1, 0x03, 0x03, 0x03, 0x00, 0x20, 0, 0, 2, 0, 0, 0,
@@ -522,7 +516,7 @@ example : (entriesOf ixCfg {} ixSec).2 = .ok () ∧
   simp only [List.mem_cons, List.not_mem_nil, or_false] at hf
   rcases hf with h | h <;> subst h <;> (unfold NoWrap; decide +kernel)
 
-/-! ### the hypotheses of `hdr_roundtrip_partial` / `hdr_search_on_encoded` are satisfiable -/
+/-! ### the hypotheses of `hdr_roundtrip` / `hdr_search_on_encoded` are satisfiable -/
 
 /-- the abstract form of `exHdr` -/
 def exAHdr : AHdr :=
@@ -548,5 +542,48 @@ example : tableEntrySize exAHdr.tblEnc = some 4 ∧ peIndirect exAHdr.tblEnc = f
   rcases this with h | h | h <;> subst h <;>
     (simp only [exAHdr, List.getElem?_cons_zero, List.getElem?_cons_succ, Option.some.injEq] at hi; subst hi;
      unfold AHdr.RowOk PtrOk; decide +kernel)
+
+/-! ### `.debug_frame` with zero length fields, a two-byte data alignment factor and sleb128 pointers -/
+
+/-- a `.debug_frame`: CIE (64-bit length, version 4, address size 4, data alignment factor −1000 in two SLEB128
+bytes, `zR` with pc-relative sleb128 FDE addresses), a 32-bit and a 64-bit zero length field, an FDE, a zero
+length field at the end -/
+def dfCie : ACie :=
+  { format := .dwarf64, version := 4, args := [.fdeEnc 0x19], augPad := [],
+    asz := 4, caf := 4, daf := -1000, rar := 300, instr := [0, 0] }
+def dfCfg : Cfg := { eh := false, e := .big, asz := 8, m := .debug }
+def dfBases : Bases := { ehFrame := { sect := some 0x8000 } }
+def dfFde : AFde :=
+  { format := .dwarf32, initOp := Leb.ofI64 (-0x7000), range := 0x123, lsdaOp := 0, augPad := [0xbb], instr := [0] }
+def dfEntries : List AEntry := [.cie dfCie, .zero .dwarf32, .zero .dwarf64, .fde (dfCie.expect dfCfg dfBases 0) dfFde]
+def dfSec : Bytes := encodeFrameSection false .big dfEntries (some .dwarf32)
+
+example : dfSec.length = 71 ∧ (entriesOf dfCfg dfBases dfSec).2 = .ok () ∧
+    (entriesOf dfCfg dfBases dfSec).1.length = 2 ∧
+    (parseAll dfCfg dfBases dfSec (entriesOf dfCfg dfBases dfSec).1).map
+      (fun fs => fs.map (fun f => (f.offset, f.cie.offset, f.cie.daf, f.initial, f.range))) =
+        .ok [(51, 0, -1000, 0x103b, 0x123)] := by
+  decide +kernel
+
+/-- the side conditions of `entries_roundtrip` hold for it (zero length fields between entries, sleb128 operands,
+two-byte data alignment factor) -/
+example : EntriesWF dfCfg dfBases 0 dfEntries := by
+  refine ⟨⟨by decide, by decide, by decide, by decide, by decide +kernel, by decide, ?_, by decide +kernel, by decide +kernel⟩,
+    (by show idSize dfCfg.eh dfCie.format + (ACie.fields dfCfg.eh dfCfg.e dfCie).length < 2 ^ 64; decide +kernel),
+    rfl, rfl,
+    ⟨(by show idSize dfCfg.eh dfFde.format + (AFde.fields dfCfg.e (ACie.expect dfCfg dfBases dfCie 0) dfFde).length < 0xffff_fff0; decide +kernel),
+     by decide +kernel, by decide +kernel, by decide, ?_, ?_, by decide +kernel⟩, trivial⟩
+  · intro arg h
+    simp only [dfCie, List.mem_cons, List.not_mem_nil, or_false] at h
+    subst h; unfold ArgWF; decide +kernel
+  · show PtrOk _ _ _ _ _ ∧ _
+    unfold PtrOk
+    decide +kernel
+  · trivial
+
+example : isValidEncoding 0x19 = true ∧ encodeOperand .little 0x19 8 (Leb.ofI64 (-0x7000)) = some [0x80, 0xa0, 0x7e] ∧
+    parseEncodedPointer .debug .little 0x19 ⟨{ sect := some 0x8000 }, none, 8⟩ ⟨0x3b, [0x80, 0xa0, 0x7e, 9]⟩ =
+      .ok (.direct 0x103b, ⟨0x3e, [9]⟩) := by
+  decide +kernel
 
 end Gimli.Props.C05
